@@ -10,6 +10,7 @@ import Circomspect.Spec.Cfg
 import Circomspect.Spec.Trace
 import Circomspect.Model.UniqueVars
 import Circomspect.Model.Ssa
+import Circomspect.Model.Propagate
 import Driver.Sexp
 
 namespace Driver
@@ -426,6 +427,128 @@ def ssacheckCmd (rest : String) : String :=
     if rs.isEmpty then s!"ok vars={vars.length} stmts={(Ssa.allStmts g).length} phis={((Ssa.allStmts g).filter (·.isPhi)).length}" else "fail " ++ " ".intercalate rs
   | none => "bad-op"
 
+-- ---------------------------------------------------------------- IR decoding (C06/C07/C20)
+
+def vnameOf (v : Sexp) : Ir.VName :=
+  match v with
+  | .list [.atom "v", .atom n, .atom sfx, ver] => { name := n, suffix := if sfx == "-" then none else some sfx, version := Sexp.nat? ver }
+  | _ => { name := "?", suffix := none, version := none }
+
+def vtypeOf (t : Sexp) : Option Ir.VType :=
+  match t with
+  | .list (.atom "local" :: _) => some .local_
+  | .list (.atom "signal" :: _) => some .signal
+  | .list (.atom "component" :: _) => some .component
+  | .list (.atom "anoncomponent" :: _) => some .component
+  | _ => none
+
+mutual
+partial def irExpr (e : Sexp) : Ir.Expr :=
+  match e with
+  | .list [.atom "infix", _, .atom op, l, r] => .infix {} op (irExpr l) (irExpr r)
+  | .list [.atom "prefix", _, .atom op, x] => .prefix {} op (irExpr x)
+  | .list [.atom "switch", _, c, t, f] => .switch {} (irExpr c) (irExpr t) (irExpr f)
+  | .list [.atom "var", _, v] => .var {} (vnameOf v)
+  | .list [.atom "num", _, .atom n] => .num {} (n.toInt?.getD 0)
+  | .list [.atom "call", _, .atom name, .list args] => .call {} name (Ir.Exprs.ofList (args.map irExpr))
+  | .list [.atom "arr", _, .list vs] => .arr {} (Ir.Exprs.ofList (vs.map irExpr))
+  | .list [.atom "acc", _, v, .list acc] => .acc {} (vnameOf v) (Ir.Accs.ofList (acc.map irAcc))
+  | .list [.atom "upd", _, v, .list acc, rhe] => .upd {} (vnameOf v) (Ir.Accs.ofList (acc.map irAcc)) (irExpr rhe)
+  | .list [.atom "phi", _, .list args] => .phi {} (args.map vnameOf)
+  | _ => .num {} 0
+partial def irAcc (a : Sexp) : Ir.Acc :=
+  match a with
+  | .list [.atom "idx", e] => .idx (irExpr e)
+  | .list [.atom "cmp", .atom n] => .cmp n
+  | _ => .cmp "?"
+end
+
+def metaType (m : Sexp) : Option Ir.VType :=
+  match m with
+  | .list [_, _, _, _, _, t] => vtypeOf t
+  | _ => none
+
+def irStmt (st : Sexp) : Ir.Stmt :=
+  match st with
+  | .list (.atom "st" :: body :: _) =>
+    match body with
+    | .list [.atom "decl", _, .list names, ty, .list dims] => .decl (names.map vnameOf) ((vtypeOf ty).getD .local_) (dims.map irExpr)
+    | .list [.atom "if", _, c, _, _] => .ite (irExpr c)
+    | .list [.atom "ret", _, e] => .ret (irExpr e)
+    | .list [.atom "sub", m, v, .atom op, rhe] => .sub {} (vnameOf v) (metaType m) op (irExpr rhe)
+    | .list [.atom "ceq", _, l, r] => .ceq (irExpr l) (irExpr r)
+    | .list [.atom "log", _, .list args] => .log (args.map (fun a => match a with | .list [.atom "exp", e] => .expr (irExpr e) | _ => .str))
+    | .list [.atom "assert", _, e] => .assert (irExpr e)
+    | _ => .ret default
+  | _ => .ret default
+
+def irCfg (c : Sexp) : Ir.Cfg :=
+  match c with
+  | .list (.atom "cfg" :: _ :: .atom kind :: .list ps :: _ :: .list bs :: _) =>
+    { isFunction := kind == "fn", params := ps.map vnameOf,
+      blocks := bs.map (fun b => match b with
+        | .list [.atom "b", _, _, _, _, .list sts] => { stmts := sts.map irStmt }
+        | _ => { stmts := [] }) }
+  | _ => { isFunction := false, params := [], blocks := [] }
+
+def showVal : Option Ir.Val → String
+  | none => "-"
+  | some (.bool b) => if b then "b1" else "b0"
+  | some (.fe n) => s!"f{n}"
+
+def showDeg : Option Ir.Range → String
+  | none => "-"
+  | some (a, b) => s!"{a}{b}"
+
+def showAnn (a : Ir.Ann) : String := showVal a.val ++ "/" ++ showDeg a.deg
+
+mutual
+/-- annotations in the order of the dump (node, then children left to right) -/
+partial def annExpr (e : Ir.Expr) : List String :=
+  match e with
+  | .infix a _ l r => showAnn a :: (annExpr l ++ annExpr r)
+  | .prefix a _ x => showAnn a :: annExpr x
+  | .switch a c t f => showAnn a :: (annExpr c ++ annExpr t ++ annExpr f)
+  | .var a _ => [showAnn a]
+  | .num a _ => [showAnn a]
+  | .call a _ args => showAnn a :: args.toList.flatMap annExpr
+  | .arr a vs => showAnn a :: vs.toList.flatMap annExpr
+  | .acc a _ acc => showAnn a :: annAccs acc
+  | .upd a _ acc rhe => showAnn a :: (annAccs acc ++ annExpr rhe)
+  | .phi a _ => [showAnn a]
+partial def annAccs (a : Ir.Accs) : List String :=
+  match a with
+  | .nil => []
+  | .cons (.idx e) rest => annExpr e ++ annAccs rest
+  | .cons (.cmp _) rest => annAccs rest
+end
+
+def annStmt (s : Ir.Stmt) : List String :=
+  match s with
+  | .decl _ _ dims => dims.flatMap annExpr
+  | .ite c => annExpr c
+  | .ret e => annExpr e
+  | .sub a _ _ _ rhe => ("S" ++ showAnn a) :: annExpr rhe
+  | .ceq l r => annExpr l ++ annExpr r
+  | .log args => args.flatMap (fun x => match x with | .expr e => annExpr e | .str => [])
+  | .assert e => annExpr e
+
+/-- merge value annotations of `vb` and degree annotations of `db` (same shapes) is not needed:
+    the two loops run one after the other on the same tree -/
+def propagateCmd (rest : String) : String :=
+  match Sexp.parse rest with
+  | some (.list [.atom "prop", c, vk, dk, p]) =>
+    let cfg := irCfg c
+    let prime := match p with | .atom s => s.toInt?.getD 0 | _ => 0
+    let big := 1000000
+    let vfuel := (Sexp.nat? vk).getD big
+    let dfuel := (Sexp.nat? dk).getD big
+    let (bs1, fixV) := Propagate.valLoop vfuel { prime := prime, vals := [], nonConstant := [] } cfg.blocks
+    let (bs2, fixD) := Propagate.degLoop dfuel (Propagate.degInit cfg) bs1
+    let anns := bs2.flatMap (fun b => b.stmts.flatMap annStmt)
+    s!"{fixV} {fixD} " ++ " ".intercalate anns
+  | _ => "bad-op"
+
 def showIStmt : CfgLift.IStmt → String
   | .simple l => s!"s{l.1}-{l.2}"
   | .branch l t f => s!"i{l.1}-{l.2}:{t}:{match f with | some f => toString f | none => "-"}"
@@ -461,6 +584,7 @@ def handle (line : String) : String :=
   if line.startsWith "traces " then tracesCmd (line.drop 7).toString else
   if line.startsWith "uniq " then uniqCmd (line.drop 5).toString else
   if line.startsWith "ssacheck " then ssacheckCmd (line.drop 9).toString else
+  if line.startsWith "propagate " then propagateCmd (line.drop 10).toString else
   match line.splitOn " " with
   | "field" :: args => fieldCmd args
   | "fieldspec" :: args => fieldSpecCmd args
